@@ -90,6 +90,7 @@ func parseStructure(linesReader *inkio.LinesReader) *structure.Structure {
 		DistributedLoads:  distributedLoads,
 	}
 	bars := BarsFromDeserialization(deserializedBars, data)
+	ensureLoadsAreAppliedToBars(deserializedBars, data)
 
 	// TODO: lines reader error handling?
 	// if err := scanner.Err(); err != nil {
@@ -97,4 +98,23 @@ func parseStructure(linesReader *inkio.LinesReader) *structure.Structure {
 	// }
 
 	return structure.Make(metadata, nodes, bars)
+}
+
+// ensureLoadsAreAppliedToBars panics if there is a load applied to a bar that isn't defined.
+func ensureLoadsAreAppliedToBars(bars []*DeserializedBarDTO, data *structure.StructureData) {
+	barIds := make(map[contracts.StrID]bool)
+	for _, bar := range bars {
+		barIds[bar.Id] = true
+	}
+
+	for barId := range data.ConcentratedLoads {
+		if !barIds[barId] {
+			panic(fmt.Sprintf("Found concentrated load applied to unknown bar: '%s'", barId))
+		}
+	}
+	for barId := range data.DistributedLoads {
+		if !barIds[barId] {
+			panic(fmt.Sprintf("Found distributed load applied to unknown bar: '%s'", barId))
+		}
+	}
 }
